@@ -237,11 +237,16 @@ class ExprMixin(object):
       return mk_bool(name == 'True')
     if name == 'None':
       return NONE_V
-    if self.spec_depth and name in self.reg.predicates:
+    if (self.spec_depth or self.ghost_depth) and name in self.reg.predicates:
       return VBound('pred', name)
-    if self.spec_depth and name in SPEC_BUILTINS:
+    if (self.spec_depth or self.ghost_depth) and name in SPEC_BUILTINS:
       return VBound('specbuiltin', name)
     mod = cx.mod
+    if name in self.reg.globals and (self.spec_depth or mod is None or name in mod.toplevel or name in mod.imports):
+      g = self.reg.globals[name]
+      ty = parse_type(g['type'])
+      self.globals_used.add(name)
+      return V(ty, z3.Int('G_' + name))
     if mod is not None and name in mod.toplevel:
       n = mod.toplevel[name]
       if isinstance(n, ast.FunctionDef):
@@ -332,6 +337,10 @@ class ExprMixin(object):
     for st1, vals in self.ev_seq(node.elts, st, cx):
       if isinstance(vals, Exc):
         yield st1, vals
+        continue
+      ty = self.expected_type(cx, node)
+      if ty is not None and ty.k == 'ref' and self.reg.classes.get(ty.name) is not None and self.reg.classes[ty.name].listlike:
+        yield st1, self.make_record(st1, ty, vals, node)
       else:
         yield st1, V(Ty('tuple', [getattr(v, 'ty', FN) for v in vals]), items=vals)
 
@@ -342,13 +351,7 @@ class ExprMixin(object):
         continue
       ty = self.expected_type(cx, node)
       if ty is not None and ty.k == 'ref' and self.reg.classes.get(ty.name) is not None and self.reg.classes[ty.name].listlike:
-        ci = self.reg.classes[ty.name]
-        if len(vals) != len(ci.listlike):
-          raise Unsupported('record literal of %s needs %d items' % (ty.name, len(ci.listlike)))
-        r = self.new_ref(st1, ty.name)
-        for fname, val in zip(ci.listlike, vals):
-          self.store_field(st1, r, ty.name, fname, val)
-        yield st1, V(ty.with_opt(False), r)
+        yield st1, self.make_record(st1, ty, vals, node)
         continue
       if ty is None:
         if not vals:
@@ -360,9 +363,47 @@ class ExprMixin(object):
       yield st1, self.new_list(st1, ty, vals)
 
   def expected_type(self, cx, node):
-    """Declared type for a literal, via the sidecar 'locals' table keyed by assigned name."""
+    """Declared type for a literal: via the assigned name/field, or the sidecar 'literals' table."""
     t = getattr(node, '_pyvc_type', None)
+    if t is None and cx.spec is not None and cx.spec.literals:
+      t = cx.spec.literals.get(ast.unparse(node))
     return t
+
+  def make_record(self, st, ty, vals, node):
+    ci = self.reg.classes[ty.name]
+    if len(vals) != len(ci.listlike):
+      raise Unsupported('record literal of %s needs %d items (line %s)' % (ty.name, len(ci.listlike), getattr(node, 'lineno', '?')))
+    r = self.new_ref(st, ty.name)
+    for fname, val in zip(ci.listlike, vals):
+      self.store_field(st, r, ty.name, fname, val)
+    return V(ty.with_opt(False), r)
+
+  def ev_Dict(self, node, st, cx):
+    ty = self.expected_type(cx, node)
+    if node.keys:
+      raise Unsupported('non-empty dict literal (line %d)' % node.lineno)
+    if ty is None:
+      yield st, self.fresh_val(st, ANY, 'dict')      # an empty dict nobody looks into here
+      return
+    if ty.k == 'dict':
+      r = self.new_ref(st)
+      d = V(ty.with_opt(False), r)
+      hk = self.ckey(ty, 'has')
+      a = self.arr(st, hk, [I, base_sort(ty.args[0]), z3.BoolSort()])
+      st.heap[hk] = z3.Store(a, r, z3.EmptySet(base_sort(ty.args[0])))
+      ck = self.ckey(ty, 'card')
+      ca = self.arr(st, ck, [I, I])
+      st.heap[ck] = z3.Store(ca, r, z3.IntVal(0))
+      yield st, d
+      return
+    if ty.k == 'ref' and self.dictlike_info(ty) is not None:
+      r = self.new_ref(st, ty.name)
+      ci = self.dictlike_info(ty)
+      for key, (fname, fty) in ci.dictlike.items():
+        self.store_field(st, r, ty.name, 'has_' + fname, mk_bool(False))
+      yield st, V(ty.with_opt(False), r)
+      return
+    raise Unsupported('dict literal of type %r (line %d)' % (ty, node.lineno))
 
   def ev_Lambda(self, node, st, cx):
     fd = ast.FunctionDef(name='<lambda>', args=node.args,
@@ -526,6 +567,17 @@ class ExprMixin(object):
     if isinstance(op, ast.Sub) and isinstance(a, V) and a.ty.k == 'set' and b.ty.k == 'set':
       yield st, self.set_binop(st, 'minus', a, b)
       return
+    # arithmetic on an optional number: TypeError if it is None, else its value
+    for which, v in (('a', a), ('b', b)):
+      if isinstance(v, V) and v.ty.k in ('int', 'real', 'bool') and v.none is not None:
+        for s2, e in self.oblige_or_raise(st, cx, z3.Not(v.none), 'TypeError', node, 'arithmetic on None'):
+          if isinstance(e, Exc):
+            yield s2, e
+          else:
+            inner = V(v.ty.with_opt(False), v.t)
+            for o in self.binop(s2, cx, op, inner if which == 'a' else a, inner if which == 'b' else b, node):
+              yield o
+        return
     if not (is_num(a) and is_num(b)):
       raise Unsupported('binary %s on %r, %r (line %s)' % (type(op).__name__, a, b, getattr(node, 'lineno', '?')))
     real = 'real' in (a.ty.k, b.ty.k)
@@ -694,7 +746,20 @@ class ExprMixin(object):
       r = self.contains(st, cx, b, a)
       yield st, (r if isinstance(op, ast.In) else z3.Not(r))
       return
-    # ordering
+    # ordering on an optional number: TypeError when it is None
+    for which, v in (('a', a), ('b', b)):
+      if isinstance(v, V) and v.ty.k in ('int', 'real', 'bool') and v.none is not None and not self.spec_depth:
+        for s2, e in self.oblige_or_raise(st, cx, z3.Not(v.none), 'TypeError', node, 'ordering comparison with None'):
+          if isinstance(e, Exc):
+            yield s2, e
+          else:
+            inner = V(v.ty.with_opt(False), v.t)
+            for o in self.compare(s2, cx, op, inner if which == 'a' else a, inner if which == 'b' else b, node):
+              yield o
+        return
+    if isinstance(a, V) and isinstance(b, V) and a.ty.k in ('int', 'real', 'bool') and b.ty.k in ('int', 'real', 'bool') and self.spec_depth:
+      a = V(a.ty.with_opt(False), a.t)
+      b = V(b.ty.with_opt(False), b.t)
     if is_num(a) and is_num(b):
       real = 'real' in (a.ty.k, b.ty.k)
       x, y = num_term(a, real), num_term(b, real)
